@@ -1,13 +1,15 @@
 #!/bin/bash
 # seedregress.sh <repo-copy> <out.txt> [budget_s] : regression over the seeded changes: apply each one to <repo-copy>
 # (a scratch checkout, never /repo) and run the check named in its meta.json (check_that_detects) against it.
-# One line per seed: id, property, exit code, first oracle. Every line should say exit=1.
+# One line per seed: id, property, exit code, first oracle. Every line should say exit=1. SEED_FROM / SEED_TO restrict the range of seed numbers.
 REPO=$1; OUT=$2; B=${3:-20}
 cd "$(dirname "$0")"
 export VERIF_REPO=$REPO VERIF_BUDGET_S=$B VERIF_SHRINK_RUNS=30 VERIF_SHRINK_S=15
 : > $OUT
 for d in $(ls -d seeded/s* | sort -t s -k3 -n); do
   id=$(basename $d)
+  n=${id#s}; n=${n%%-*}
+  if [ "$n" -lt "${SEED_FROM:-0}" ] || [ "$n" -gt "${SEED_TO:-100000}" ]; then continue; fi
   p=$(python3 -c "import json,sys; m=json.load(open('$d/meta.json')); print(m.get('check_that_detects') or m.get('property',''))" 2>/dev/null)
   [ -n "$p" ] || { echo "$id no meta" >> $OUT; continue; }
   if grep -q '"neutralised"' $d/meta.json; then echo "$id $p neutralised by a later fix (skipped)" >> $OUT; continue; fi
